@@ -69,6 +69,12 @@ add("C14", "model_checking",
     "Trusted: SqueethAdapter reference functions (mc/worlds/squeeth.py), the closed-form LP amounts (tied to the library's TickMath by C06/C07). Float TWAP in the implementation: 1e-9 relative tolerance, verdicts within 1e-7 of the frontier are not judged. Rejected operations are judged by C04, not here.",
     "DESIGN.md §5 C14")
 
+add("C15", "model_checking",
+    "explicit-state DFS over buy / sell / refresh / deposit / withdraw sequences within one bar on the real DeribitOptionMarket over a family of order books, in lock-step with an order-book reference model in exact Fractions",
+    "43 books (quick; all size combinations in the thorough tier) with 0-3 levels per side, sizes {1,2,5}, next to and exactly on the mark; orders of 1, 2, 3, 6, 2.4, 2.5, 0.4, 14 contracts as market orders, limit orders at level 0 / 1 (token or USD price) and mark caps 1.011 / 1.5 / 3, on two instruments plus an unknown one. After every event: returned fills = best-first fills at displayed sizes of the amount rounded to the contract step, fee = min(0.03% n, 12.5% premium) rounded to 1e-6, cash, position amounts and size-weighted average prices, the visible book (shrinks until refresh, restored by refresh), equity = cash + amount x mark all equal the model; unfillable / over-held / unaffordable orders must be rejected and exactly fillable ones accepted.",
+    "Trusted: the order-book model in mc/checks/c15.py. Books are sorted best-first as Deribit delivers them and satisfy bids <= mark <= asks.",
+    "DESIGN.md §5 C15")
+
 _PENDING = "check not built yet in this round (planned: bounded exhaustive exploration, see DESIGN.md §5); listed here until its check is registered"
 for _i in range(1, 21):
     _p = f"C{_i:02d}"
